@@ -376,10 +376,11 @@ PROPS["C04"] = {
 }
 
 RETRY_STUBS = {"(*github.com/tsuna/gohbase.client).getRegionAndClientForRPC": "github.com/tsuna/gohbase.vRetryLocate"}
+RETRY_STUBS2 = {"(*github.com/tsuna/gohbase.client).getRegionAndClientForRPC": "github.com/tsuna/gohbase.vRetryLocate2"}
 
 PROPS["C17"] = {
     "files": ["root/fakes.go", "root/c08_cache.go", "root/c01_routing.go", "root/c09_establish.go", "root/c17_backoff.go"],
-    "native_files": ["root/c17_backoff_native.go"], "native_cuts": BATCH_CUTS,
+    "native_files": ["root/c17_backoff_native.go", "root/c09_establish_native.go"], "native_cuts": BATCH_CUTS + EST_CUTS,
     "claim": "For EVERY non-negative 64-bit back-off value sleepAndIncreaseBackoff requests a wait of exactly that value (none for 0, "
              "returning 16 ms) and returns 2b below 5 s, b+5 s below 30 s, b from then on; with time standing still it returns only "
              "through cancellation, with the context's error; 17 consecutive calls reproduce the closed-form schedule. For a single "
@@ -403,5 +404,9 @@ PROPS["C17"] = {
          "params": {"quick": {"ATTEMPTS": 4, "BATCH": 0}, "thorough": {"ATTEMPTS": 6, "BATCH": 0}}},
         {"name": "retry_pacing_batch", "pkg": "root", "entry": "VerifRetryPacing", "stubs": RETRY_STUBS, "reach": ["paced"], "watchdog": 30,
          "params": {"quick": {"ATTEMPTS": 4, "BATCH": 1}, "thorough": {"ATTEMPTS": 6, "BATCH": 1}}},
+        {"name": "establish_pacing", "steps": 40000, "pkg": "root", "entry": "VerifEstablishPacing", "stubs": EST_STUBS, "reach": ["paced"],
+         "params": {"quick": {"ATTEMPTS": 3, "FAULTS": 0}, "thorough": {"ATTEMPTS": 6, "FAULTS": 0}}},
+        {"name": "batch_pacing_two_calls", "pkg": "root", "entry": "VerifBatchPacing", "stubs": RETRY_STUBS2, "reach": ["paced", "waited"],
+         "params": {"quick": {"ATTEMPTS": 3}, "thorough": {"ATTEMPTS": 5}}},
     ],
 }
